@@ -32,7 +32,9 @@ var injectKinds = []string{"goto", "labelled-break", "labelled-continue", "selec
 	// continues it with an unlabelled break / continue
 	"native-range-func-break-noyield", "native-range-ptr-continue-noyield", "native-range-func-in-yielding-loop-noyield",
 	// a goto in a plain closure that jumps forward over a range loop (negative control only)
-	"goto-over-range"}
+	"goto-over-range",
+	// a defer next to an UNREACHABLE yield in a range that stays native
+	"defer-and-dead-yield-in-func-range"}
 
 // rawInject returns the source text of the construct (placeholders as in templates).
 func rawInject(kind string, tag func() int, control bool) string {
@@ -87,6 +89,8 @@ func rawInject(kind string, tag func() int, control bool) string {
 		return fmt.Sprintf("for r9 := 0; r9 < 2; r9++ {\n\ts9 := 0\n\tfor v9 := range func(yield func(int) bool) {\n\t\t_ = yield(1) && yield(2) && yield(3)\n\t} {\n\t\tif v9 == 2 {\n\t\t\tcontinue\n\t\t}\n\t\tif v9 == 3 && r9 == 1 {\n\t\t\tbreak\n\t\t}\n\t\ts9 += v9\n\t}\n\tvrt.E(%d, s9)\n\t«Yield»(s9)\n}", tag())
 	case "goto-over-range":
 		return fmt.Sprintf("if len(\"x\") == 2 {\n\tgoto L9\n}\nfor _, x9 := range []int{1, 2} {\n\tvrt.E(%d, x9)\n}\nL9:\n\tvrt.E(%d)\n%s", tag(), tag(), y("62"))
+	case "defer-and-dead-yield-in-func-range":
+		return fmt.Sprintf("for v9 := range func(yield func(int) bool) {\n\t_ = yield(1) && yield(2)\n} {\n\tdefer vrt.E(%d, v9)\n\tcontinue\n\t«Yield»(v9)\n}\n«Yield»(61)\nvrt.E(%d)", tag(), tag())
 	case "yield-switch-init":
 		return fmt.Sprintf("switch «Yield»(98); {\ndefault:\n\tvrt.E(%d)\n}", tag())
 	case "go-yield":
@@ -129,7 +133,7 @@ func rawInject(kind string, tag func() int, control bool) string {
 func Inject(r *prng.R, f *Func, tag func() int) Injection {
 	kinds := injectKinds
 	inj := Injection{Kind: kinds[r.Intn(len(kinds))], Control: r.Chance(1, 4)}
-	if inj.Control && (strings.HasPrefix(inj.Kind, "yield-if") || strings.HasPrefix(inj.Kind, "yield-for-init") || strings.HasPrefix(inj.Kind, "yield-switch-init-in") || strings.HasPrefix(inj.Kind, "yield-elseif") || inj.Kind == "yield-switch-init" || inj.Kind == "go-yield" || inj.Kind == "yield-as-value" || strings.HasSuffix(inj.Kind, "-noyield")) {
+	if inj.Control && (strings.HasPrefix(inj.Kind, "yield-if") || strings.HasPrefix(inj.Kind, "yield-for-init") || inj.Kind == "defer-and-dead-yield-in-func-range" || strings.HasPrefix(inj.Kind, "yield-switch-init-in") || strings.HasPrefix(inj.Kind, "yield-elseif") || inj.Kind == "yield-switch-init" || inj.Kind == "go-yield" || inj.Kind == "yield-as-value" || strings.HasSuffix(inj.Kind, "-noyield")) {
 		inj.Control = false // these constructs ARE a yield; there is no yield-free control of them
 	}
 	if inj.Kind == "goto-over-range" {
